@@ -82,6 +82,10 @@ impl Out {
     pub fn wants_next(&self) -> bool {
         self.only.map_or(true, |o| o == self.n + 1)
     }
+    /// is one of the next `k` case slots the one asked for (replay), or are all cases wanted?
+    pub fn wants_any_of_next(&self, k: u64) -> bool {
+        self.only.map_or(true, |o| o > self.n && o <= self.n + k)
+    }
     pub fn skip(&mut self) {
         self.n += 1;
     }
